@@ -14,7 +14,8 @@ TokSeqs ==
   { <<x>> : x \in Toks \ {UP} } \cup { <<x, y>> : x \in Toks, y \in Toks \ {UP} }
   \cup { <<x, y, z>> : x \in {A, L0, L1, UP}, y \in {A, B, UP}, z \in {A, B} }
   \cup (IF Rich THEN { <<x, y, UP, z>> : x \in {A, L0}, y \in {A, B}, z \in {A, B} } ELSE {})
-  \cup { <<K>>, <<A, K>>, <<A, UP, K>>, <<A, B, UP, K>> }        \* a reserved name as the resolved final segment, also reached through '..' 
+  \cup { <<K>>, <<A, K>>, <<A, UP, K>>, <<A, B, UP, K>> }        \* a reserved name as the resolved final segment, also reached through '..'
+  \cup { <<x, y, UP>> : x \in {A, L0}, y \in {A, B} } \cup { <<A, B, A, UP, UP>> }      \* '..' as the LAST component: the parent level itself
 \* paths that name something after resolution
 GoodSeqs == { s \in TokSeqs : Resolve(s) # <<>> }
 
@@ -22,15 +23,17 @@ Leaf(n) == [k |-> "leaf", v |-> n, ents |-> {}, elems |-> <<>>]
 Map(es) == [k |-> "map", v |-> 0, ents |-> es, elems |-> <<>>]
 Lst(el) == [k |-> "list", v |-> 0, ents |-> {}, elems |-> el]
 E(p, v) == [p |-> p, v |-> v]
-Vals == { Leaf(1), Leaf(2), Map({}), Map({E(<<B>>, 1)}), Map({E(<<A, B>>, 2), E(<<B>>, 1)}),
+\* (the harness stores leaf 2 as the integer 0 and leaf 3 as None: values that are false in Python)
+Vals == { Leaf(1), Leaf(2), Leaf(3), Map({}), Map({E(<<B>>, 1)}), Map({E(<<A, B>>, 2), E(<<B>>, 1)}),
           Lst(<< {E(<<A>>, 1)}, {} >>), Lst(<<>>) }
 MapVals == { v \in Vals : v.k = "map" }
 
 O(o, tok, val) == [o |-> o, tok |-> tok, val |-> val, key |-> Join(tok)]
-IndexedLast(s) == s[Len(s)][2] >= 0
+LastSeg(s) == LET p == Resolve(s) IN p[Len(p)]
+IndexedLast(s) == LastSeg(s)[2] >= 0
 Ops ==
   { O(o, s, Leaf(0)) : o \in {"get", "in"}, s \in GoodSeqs }
-  \cup { O(o, s, Leaf(0)) : o \in {"del", "pop"}, s \in { x \in GoodSeqs : ~IndexedLast(x) /\ x[Len(x)] # L } }
+  \cup { O(o, s, Leaf(0)) : o \in {"del", "pop"}, s \in { x \in GoodSeqs : ~IndexedLast(x) /\ LastSeg(x) # L } }
   \cup { O("set", s, v) : s \in { x \in GoodSeqs : ~IndexedLast(x) }, v \in Vals }
   \cup { O("set", s, v) : s \in { x \in GoodSeqs : IndexedLast(x) }, v \in MapVals }
   \cup { O("setdefault", s, v) : s \in { x \in GoodSeqs : ~IndexedLast(x) }, v \in {Leaf(2), Map({E(<<B>>, 1)})} }
